@@ -33,7 +33,7 @@ def _ev(t, n):
 
 
 def ilvt_entry_width(ctx, ex, pid="C23") -> int:
-    ilvt = [o for o in ex.objects.values() if o.name == "ilvt" and o.ctor[0] == "call" and o.ctor[1] == pat("self.memory_type")]
+    ilvt = [o for o in ex.objects.values() if o.ctor[0] == "call" and o.ctor[1] == pat("self.memory_type") and "shape" in dict(o.ctor[3])]
     if not ilvt:
         return 0
     o = ilvt[0]
